@@ -290,6 +290,8 @@ def f_nested(d):
     d2 = dict(d)
     d2.update({"new": 1})
     d2.pop(keys[0])
+    last = d2.popitem()
+    r["last"] = [last]
     return r, flat, keys, sorted(d2), list(reversed(keys)), dict(zip(keys, range(len(keys)))), tuple(d.values())
 
 
